@@ -576,12 +576,13 @@ class BatteryDistributionAlgorithm:
         distribution, left_over = self._greedy_distribute_remaining_power(
             distribution, left_over
         )
-        inverter_distribution = self._distribute_multi_inverter_pairs(
+        inverter_distribution, unplaced_power = self._distribute_multi_inverter_pairs(
             distribution, excl_bounds, incl_bounds
         )
 
         return DistributionResult(
-            distribution=inverter_distribution, remaining_power=left_over
+            distribution=inverter_distribution,
+            remaining_power=left_over + unplaced_power,
         )
 
     def _distribute_multi_inverter_pairs(
@@ -589,7 +590,7 @@ class BatteryDistributionAlgorithm:
         distribution: dict[_InverterSet, _Power],
         excl_bounds: dict[int, float],
         incl_bounds: dict[int, float],
-    ) -> dict[int, float]:
+    ) -> tuple[dict[int, float], float]:
         """Distribute power between inverters in a set for a single pair.
 
         Args:
@@ -598,9 +599,11 @@ class BatteryDistributionAlgorithm:
             incl_bounds: inclusion bounds for inverters and batteries
 
         Returns:
-            Return the power for each inverter in given distribution.
+            Return the power for each inverter in given distribution, and the power
+                that could not be placed on the inverters of their set.
         """
         new_distribution: dict[int, float] = {}
+        unplaced_power: float = 0.0
 
         for inverter_ids, power in distribution.items():
             if len(inverter_ids) == 1:
@@ -622,7 +625,9 @@ class BatteryDistributionAlgorithm:
                     else:
                         new_distribution[inverter_id] = 0.0
 
-        return new_distribution
+                unplaced_power += remaining_power
+
+        return new_distribution, unplaced_power
 
     def _greedy_distribute_remaining_power(
         self, distribution: dict[_InverterSet, _Power], remaining_power: float
